@@ -138,7 +138,7 @@ def r2(cx):
         if c.kind == "bin" and c.op in ("Ne", "Eq") and ((c.b.is_const and c.b.cint() == 3) or (c.a.is_const and c.a.cint() == 3)):
             te, fe = bool_edges(b.term, c)
             same_edge = fe if c.op == "Ne" else te
-            r = cfg.reach(same_edge[2], blocked_nodes={x for x in cfg.reach(( te if c.op == "Ne" else fe)[2]) if False})
+            r = cfg.after(same_edge, blocked_nodes={x for x in cfg.reach(( te if c.op == "Ne" else fe)[2]) if False})
             for t in clos_body.calls("=fcntl"):
                 if t.bb in r and len(t.args) >= 3 and t.args[1].is_const and t.args[1].cint() == 2: handled = True     # F_SETFD == 2
     cx.check(handled, "C16.R2", "varlink:varlink_exec:fd3-cloexec", clos_body.sp,
